@@ -745,7 +745,7 @@ impl Suite for Canary {
     }
     fn generate(&self, seed: u64, tier: &str) -> Vec<Case> {
         let mut r = Rng::new(seed ^ 0xC11_0001);
-        let n = if tier == "thorough" { 1_200 } else { 220 };
+        let n = if tier == "thorough" { 1_200 } else { 170 };
         let mut cases = vec![];
         // every known-finding request once, followed by two more rounds
         for (k, (id, rq)) in damaging_pool().into_iter().enumerate() {
